@@ -23,6 +23,7 @@ type structObl struct {
 // spec syntax:
 //   writers:<pkgname>.<Type>.<field>=<funcKey>,<funcKey>,…
 //   nocall:<funcKey-prefix-list>-><funcKey-prefix-list>
+//   nodirectcall:<funcKey-list>-><funcKey-list>   (calls in the bodies of the first list only)
 func (eng *Engine) structuralObligations(pc *PropConfig) []structObl {
 	var out []structObl
 	for _, s := range pc.Structural {
@@ -32,7 +33,9 @@ func (eng *Engine) structuralObligations(pc *PropConfig) []structObl {
 		case strings.HasPrefix(s, "mapwriters:"):
 			out = append(out, eng.mapWritersObl(strings.TrimPrefix(s, "mapwriters:")))
 		case strings.HasPrefix(s, "nocall:"):
-			out = append(out, eng.noCallObl(strings.TrimPrefix(s, "nocall:")))
+			out = append(out, eng.noCallObl(strings.TrimPrefix(s, "nocall:"), false))
+		case strings.HasPrefix(s, "nodirectcall:"):
+			out = append(out, eng.noCallObl(strings.TrimPrefix(s, "nodirectcall:"), true))
 		default:
 			out = append(out, structObl{Name: s, OK: false, Detail: "unknown structural obligation"})
 		}
@@ -162,8 +165,12 @@ func (eng *Engine) mapWritersObl(spec string) structObl {
 }
 
 // nocall:from1,from2->to1,to2 : no static call path from any `from` to any `to`.
-func (eng *Engine) noCallObl(spec string) structObl {
+// nodirectcall: same, but only calls written in the bodies of the `from` functions themselves (and their closures).
+func (eng *Engine) noCallObl(spec string, direct bool) structObl {
 	name := "nocall:" + spec
+	if direct {
+		name = "nodirectcall:" + spec
+	}
 	parts := strings.SplitN(spec, "->", 2)
 	if len(parts) != 2 {
 		return structObl{name, false, "bad spec"}
@@ -199,6 +206,15 @@ func (eng *Engine) noCallObl(spec string) structObl {
 				path = append([]string{funcKey(x)}, path...)
 			}
 			return structObl{name, false, "static call path: " + strings.Join(path, " -> ")}
+		}
+		isFrom := false
+		for _, ff := range from {
+			if ff == f || (f.Parent() != nil && f.Parent() == ff) {
+				isFrom = true
+			}
+		}
+		if direct && !isFrom {
+			continue
 		}
 		visit := func(g *ssa.Function) {
 			if g != nil && !seen[g] && strings.HasPrefix(pkgPathOf(g), repoModule) {
